@@ -32,6 +32,9 @@ CHECKS = {
  'C11': ('exploration', 'seeded deterministic simulation: buffer-API histories (top level, actions, EOF actions, yywrap) checked against a per-buffer stream reference model',
          'sampled scenarios x histories over create/scan_*/switch/push/pop/flush/delete/yylex with 3-30 sources; per-buffer unread text, BOL and line number are tracked and compared at every event',
          'trusts: the reference matcher with triage; only histories the manual permits are generated', '6 C11'),
+ 'C12': ('exploration', 'seeded deterministic simulation: real pthreads under a baton scheduler (one seed = one interleaving), solo-versus-interleaved differential per instance; ThreadSanitizer free-running supplement',
+         'sampled scenarios (several instances of one reentrant scanner; differently-prefixed scanners incl. a non-reentrant one linked together) x plans x hand-over schedules',
+         'trusts: the baton hands over only at simulator callbacks, so state shared between two callbacks is visible only to the supplementary TSan mode (runtime monitoring, gated 3/3); C++ and c99 flavours not driven', '6 C12'),
  'C13': ('exploration', 'seeded deterministic simulation under ASan/UBSan with an allocation ledger, junk-fill differential and destroy/reuse differential',
          'sampled scenarios x plans from the union of the other workloads; every allocator call is ledgered; a third of the plans are re-run with another fill pattern and (non-reentrant) against a fresh process',
          'trusts: ASan/UBSan; uninitialised reads are visible only when they change behaviour under a different fill pattern (MSan unusable here)', '6 C13'),
